@@ -21,6 +21,10 @@ hub-level outcome (`view`):
                                           RuntimeError("No message broadcasted") only if none had a message
                                           (the code after the fix of F48; before it the loop was skipped)
 
+Value-snapshot semantics: a send carries VALUES — `json.dumps` is evaluated when `send_structured` is called and
+yields an immutable string; later changes of the caller's StructuredMessage object (or of what a receiver got)
+cannot reach the queue (`Props/C18.send_snapshots_value`; checked on the real sockets by the harness).
+
 Local state of the socket object: `_use_callbacks` is read by the hub at connect time only (the `cb` flag of
 `connect`); `_received_messages` is never read or written after `__init__`; timeouts are not modelled
 (`timeout=None`); the logging wrappers do not touch shared state.
